@@ -186,8 +186,11 @@ impl VisitMut for OperationTransformVisitor<'_> {
     }
 
     fn visit_mut_if_stmt(&mut self, if_stmt: &mut IfStmt) {
-        if_stmt.test.visit_mut_children_with(self);
-        if_stmt.cons.visit_mut_children_with(self);
+        // visit the condition itself (not only its children) and both branches, so that an operation used
+        // directly as the condition or placed in an un-braced `else` is instrumented too
+        if_stmt.test.visit_mut_with(self);
+        if_stmt.cons.visit_mut_with(self);
+        if_stmt.alt.visit_mut_with(self);
     }
 
     // cancel visit child blocks
